@@ -30,7 +30,8 @@ RULE = (
     "polyLine, angle, curve) or an edge on a closing position (3-0, 7-4) is present and written; distinct = distinct "
     "generated case. Small-model cell: the same models multiplied by 1e-2 ... 1e-4. Projection cell: 2-6 "
     "project_side / project_edge calls in drawn order on one or two plain operations, expected labels per edge from the "
-    "call list alone; non-trivial: >= 2 calls and >= 1 projected edge."
+    "call list alone; non-trivial: >= 2 calls and >= 1 projected edge. Shared-array cell: one float64 array of "
+    "spline/polyLine points given to the edges of several holders that are translated in place by different offsets."
 )
 ASSUMPTIONS = [
     "Face.point_array after the manipulations is trusted for the corner order (face re-indexing is C10's subject); "
@@ -46,6 +47,8 @@ ASSUMPTIONS = [
     "does not say which wins: the entry must equal one of them (labelled conflict)",
     "small models: every vertex distance stays >= 1.2e-5 (100 x the library's merge tolerance 1e-7); arc kinds are left "
     "out there because the library's absolute collinearity tolerance drops small arcs (known finding C08-N2)",
+    "shared-array cell: the expected curve of a holder is the user's points plus that holder's own displacement "
+    "(in-place translate() of the operation / face); holders are 10 block diagonals apart so no vertices coincide",
     "projection sequences: labels(edge) = surfaces of all sides projected with edges=True that contain the edge + "
     "surfaces given to project_edge for that edge; the four edges of a side come from the blockMesh sketch (R-HEX)",
 ]
@@ -736,6 +739,118 @@ def check_projection(case, ctx: Ctx) -> None:
         ctx.label("edge-projected-by-both-operations")
 
 
+# --------------------------------------------------------------------------------------------------
+# one float64 array of spline / polyLine points given to several edges whose holders are translated in place
+
+
+@st.composite
+def shared_array_case(draw):
+    case = draw(_lattice((1, 1, 1)))
+    case["rotation"] = draw(st.integers(0, 23))
+    case["position"] = draw(st.integers(0, 11))
+    case["spec"] = draw(xe.any_spec(xe.POINT_KINDS))
+    case["variant"] = draw(st.sampled_from(["stations", "stations", "two-faces"]))
+    n = draw(st.integers(2, 3)) if case["variant"] == "stations" else 2
+    # offsets in units of the block's diagonal: stations 10 diagonals apart along one direction plus an own part
+    case["direction"] = draw(st.sampled_from([[1, 0, 0], [0, 1, 0], [0, 0, 1], [1, 1, 0], [-1, 0, 1]]))
+    case["offsets"] = [[draw(st.floats(-1, 1)) for _ in range(3)] for _ in range(n)]
+    case["first_stays"] = draw(st.booleans())  # station 0 is not translated at all
+    case["interleaved"] = draw(st.booleans())  # build + translate one after the other, or build all, then translate all
+    case["as_array"] = draw(st.sampled_from([True, True, True, False]))  # False: a list of lists (always copied)
+    return case
+
+
+def check_shared_array(case, ctx: Ctx) -> None:
+    pos = positions(case)
+    perm = lt.ROT[case["rotation"]]
+    nodes = lt.cell_nodes([1, 1, 1], 0)
+    P = np.array([pos[nodes[perm[i]]] for i in range(8)])
+    diag = float(np.linalg.norm(P.max(axis=0) - P.min(axis=0)))
+    p = case["position"] % (4 if case["variant"] == "two-faces" else 12)
+    c1, c2 = POS_CORNERS[p]
+    base = xe.Truth(case["spec"], P[c1], P[c2])
+    user_points = np.array([list(map(float, q)) for q in base.pts], dtype=float)
+    given = user_points.copy() if case["as_array"] else user_points.tolist()
+    make = cb.Spline if case["spec"]["kind"] == "spline" else cb.PolyLine
+    facts: Dict[str, Any] = {"variant": case["variant"], "position": p, "edge_kind": case["spec"]["kind"],
+                             "interleaved": case["interleaved"], "as_array": case["as_array"], "holders": len(case["offsets"])}
+    direction = np.array(case["direction"], float)
+    direction /= np.linalg.norm(direction)
+    offsets = [10.0 * diag * k * direction + diag * np.array(o) for k, o in enumerate(case["offsets"])]
+    if case["first_stays"]:
+        offsets[0] = np.zeros(3)
+    mesh = cb.Mesh()
+    truths: List[xe.Truth] = []
+    try:
+        if case["variant"] == "stations":
+            ops = []
+            for d in offsets:
+                edges_b = [make(given) if p == i else None for i in range(4)]
+                edges_t = [make(given) if p == i + 4 else None for i in range(4)]
+                op = cb.Loft(cb.Face(P[:4], edges_b), cb.Face(P[4:], edges_t))
+                if p >= 8:
+                    op.add_side_edge(p - 8, make(given))
+                ops.append(op)
+                if case["interleaved"] and np.any(d != 0):
+                    op.translate(d)
+                truths.append(base.translated(d))
+            if not case["interleaved"]:
+                for op, d in zip(ops, offsets):
+                    if np.any(d != 0):
+                        op.translate(d)
+        else:
+            # the same profile on edge i of the bottom face and of the top face, the top face moved to its place
+            i = p
+            h = P[4:] - P[:4]
+            lift = h.mean(axis=0)
+            bottom = cb.Face(P[:4], [make(given) if j == i else None for j in range(4)])
+            top = cb.Face(P[:4], [make(given) if j == i else None for j in range(4)])
+            top.translate(lift)
+            ops = [cb.Loft(bottom, top)]
+            truths = [base, base.translated(lift)]
+            if np.any(offsets[1] != 0):
+                ops[0].translate(offsets[1])
+                truths = [t.translated(offsets[1]) for t in truths]
+    except Exception as ex:
+        raise Violation("construction-raised", f"{type(ex).__name__}: {ex}", **facts) from None
+    for op in ops:
+        for ax in range(3):
+            op.chop(ax, count=2)
+        mesh.add(op)
+    try:
+        text, _ = lt.write_text(mesh)
+        bmd = lt.parse(text)
+    except FoamParseError as ex:
+        raise Violation("unparsable", f"written file does not parse: {ex}", **facts) from None
+    except Exception as ex:
+        raise Violation("write-failed", f"{type(ex).__name__}: {ex}", **facts) from None
+    vpos = [np.array(v.pos) for v in bmd.vertices]
+    if len(bmd.edges) != len(truths):
+        raise Violation("entry-count", f"{len(bmd.edges)} entries for {len(truths)} declared edges", **facts)
+    for k, t in enumerate(truths):
+        mine = [e for e in bmd.edges
+                if {True} == {any(xe.close(vpos[v], q) for q in (t.X, t.Y)) for v in (e.a, e.b)} and e.a != e.b]
+        if len(mine) != 1:
+            raise Violation("entry-missing" if not mine else "entry-duplicated",
+                            f"{len(mine)} entries between the end points of holder {k}", **dict(facts, holder=k))
+        xe.check_entry(mine[0], vpos[mine[0].a], vpos[mine[0].b], t, dict(facts, holder=k))
+    for bi, blk in enumerate(mesh.blocks):
+        for wire in blk.wire_list:
+            pa, pb = (np.asarray(v.position, float) for v in wire.vertices)
+            for k, t in enumerate(truths):
+                if (xe.close(pa, t.X) and xe.close(pb, t.Y)) or (xe.close(pa, t.Y) and xe.close(pb, t.X)):
+                    got_len = float(wire.edge.length)
+                    if abs(got_len - t.length) > 1e-9 * t.length + 1e-12:
+                        raise Violation("wire-length", f"block {bi} wire {wire.corners}: Edge.length {got_len:.9g}, the user's "
+                                        f"curve is {t.length:.9g} long", **dict(facts, holder=k))
+    if case["as_array"] and not np.array_equal(given, user_points):
+        raise Violation("caller-array-changed", "the array of points given by the caller was modified", **facts)
+    ctx.nt(case["as_array"])
+    ctx.label("variant:" + case["variant"], "kind:" + case["spec"]["kind"], "pos:%d" % p,
+              "given-as-float64-array" if case["as_array"] else "given-as-list",
+              "interleaved" if case["interleaved"] else "built-then-translated", "holders=%d" % len(truths))
+
+
 CELLS = [
     Cell("C07/single/as-drawn", single_case(xe.ALL_VALID), check_model, 350, 12000,
          "one operation, 1-3 user edges of any kind on face (before shift/reorient/double-invert), opposite face, "
@@ -764,6 +879,11 @@ CELLS = [
     Cell("C07/small-model", small_case(), check_model, 250, 8000,
          "the same models given in small units (scale 1e-2 ... 1e-4, vertex distances down to 1.2e-5): spline, polyLine, "
          "project and curve edges still appear exactly once", fixed_cases=small_grid()),
+    Cell("C07/shared-array/translated", shared_array_case(), check_shared_array, 300, 9000,
+         "spline / polyLine points given as ONE float64 array to the edges of 2-3 operations (or of the bottom and top "
+         "face of one) that are then moved to their places with the in-place translate(): every entry = the user's "
+         "points + its holder's own offset, wire lengths unchanged, the caller's array untouched; non-trivial: given as "
+         "an array (lists are always copied)"),
     Cell("C07/projection/sequences", projection_case(), check_projection, 400, 12000,
          "2-6 project_side(.., edges=True/False) / project_edge calls in drawn order on one or two operations; the label "
          "set of each of the 12 edges follows from the call list (at most two per edge by construction); valid "
